@@ -268,6 +268,7 @@ func (l *Lexer) scanAccount() Token {
 	start := l.pos
 	startPos := l.position()
 	lastNonSpace := start
+	end := startPos // position after the last non-blank character of the name
 
 	for l.pos < len(l.input) {
 		r, size := utf8.DecodeRuneInString(l.input[l.pos:])
@@ -288,10 +289,11 @@ func (l *Lexer) scanAccount() Token {
 		l.pos += size
 		l.column++
 		lastNonSpace = l.pos
+		end = l.position()
 	}
 
 	value := l.input[start:lastNonSpace]
-	return Token{Type: TokenAccount, Value: value, Pos: startPos, End: l.position()}
+	return Token{Type: TokenAccount, Value: value, Pos: startPos, End: end}
 }
 
 // isAccountTerminator returns true for characters that end account names in hledger format.
